@@ -242,11 +242,12 @@ Section Safe.
 
   Hypothesis Hsec : fx_sec c = true.
 
-  Lemma load_dir_safe n : forall i m, i + N.of_nat n <= 16 -> 32 + (i + N.of_nat n) * 12 <= size -> m_ok i m ->
-    lsafe (load_dir c n data size i m) /\ (forall m', load_dir c n data size i m = Loaded m' -> m_ok 16 m').
+  Lemma load_dir_safe n : forall i m dend, i + N.of_nat n <= 16 -> 32 + (i + N.of_nat n) * 12 <= size -> m_ok i m ->
+    lsafe (load_dir c n data size i m dend) /\ (forall m', load_dir c n data size i m dend = Loaded m' -> m_ok 16 m').
   Proof.
-    induction n as [|k IH]; intros i m Hn Hd Hm.
-    { split; [split; discriminate|]. intros m' [= <-]. eapply m_ok_mono; [|exact Hm]. simpl in Hn. lia. }
+    induction n as [|k IH]; intros i m dend Hn Hd Hm.
+    { cbn [load_dir]. destruct (dend =? size); [|split; [split; discriminate|discriminate]].
+      split; [split; discriminate|]. intros m' [= <-]. eapply m_ok_mono; [|exact Hm]. simpl in Hn. lia. }
     cbn [load_dir].
     destruct (rd_u32_ok data size (32 + i * 12)) as [ty ->]; [lia|].
     destruct (rd_u32_ok data size (32 + i * 12 + 4)) as [off ->]; [lia|].
@@ -281,7 +282,7 @@ Proof.
   assert (Em : mul32 nsec 12 = nsec * 12) by (unfold mul32; apply u32_small; unfold two32; lia).
   rewrite Em, add32_small by (unfold two32; lia).
   destruct (size <? 32 + nsec * 12) eqn:E3; [split; [split; discriminate|discriminate]|]. apply N.ltb_ge in E3.
-  destruct (load_dir_safe c data size eq_refl Hbig Hok Hslen Hsec (N.to_nat nsec) 0 (empty_module flags entry)) as [S1 S2];
+  destruct (load_dir_safe c data size eq_refl Hbig Hok Hslen Hsec (N.to_nat nsec) 0 (empty_module flags entry) (32 + nsec * 12)) as [S1 S2];
     rewrite ?N2Nat.id; try lia.
   { split; [exists 12; split; [reflexivity|lia]|simpl; lia]. }
   split; [exact S1|]. intros m Hm. destruct (S2 m Hm) as [[k [Hk1 Hk2]] [_ Hf]].
